@@ -13,10 +13,8 @@
       ppr      : list nat -> list Q          PageRank().fit_predict(adjacency, {center: 1 ...})
       scores   : mat                         per-center scores inside PageRankClassifier
       modularity : list Z -> Q               get_modularity of one restart *)
-From SKN Require Import Base.Util.
 From Coq Require Import Qabs Permutation Sorted.
-Close Scope Q_scope.
-Open Scope nat_scope.
+From SKN Require Import Base.Util.
 
 Inductive err := ValueError | IndexError.
 Inductive result (A : Type) := Ok (a : A) | Err (e : err).
@@ -470,3 +468,30 @@ Definition admissible (bipartite : bool) (pos : position) (n_row n_col v : nat) 
     | POther => False
     end
   else v < n_row.
+
+(* ------------------------------------------------------------------------------------------ *)
+(** * Helpers for the correspondence harness (input construction, reduced output) *)
+
+(** Dense denotation of COO triples (duplicates are summed, as scipy does). *)
+Definition mat_of_triples (n m : nat) (t : list (nat * nat * Q)) : mat :=
+  mk n m (fun i j => sumq (map (fun e => if Nat.eqb (fst (fst e)) i && Nat.eqb (snd (fst e)) j
+                                        then snd e else 0%Q) t)).
+(** Entries are printed as (numerator, denominator) of the reduced fraction. *)
+Definition qpair (q : Q) : Z * Z := let r := Qred q in (Qnum r, Zpos (Qden r)).
+Definition mred (A : mat) : list (list (Z * Z)) := map (map qpair) A.
+
+Definition secondary_red (A : mat) (labels : list Z) :=
+  match secondary A labels with
+  | Ok (k, P, G) => Ok (k, mred P, mred G)
+  | Err e => Err e
+  end.
+Definition secondary_bip_red (B : mat) (lrow lcol : list Z) :=
+  match secondary_bip B lrow lcol with
+  | Ok (k, Pr, Pc, G) => Ok (k, mred Pr, mred Pc, mred G)
+  | Err e => Err e
+  end.
+Definition get_membership_red (labels : list Z) (n_labels : option nat) :=
+  match get_membership labels n_labels with
+  | Ok (k, M) => Ok (k, mred M)
+  | Err e => Err e
+  end.
